@@ -411,6 +411,19 @@ def run(ctx):
     for lst in ("<RoleInstanceList></RoleInstanceList>", "<RoleInstanceList/>", "<RoleInstanceList>%s</RoleInstanceList>" % ri,
                 "<RoleInstanceList>%s%s</RoleInstanceList>" % (ri, ri), "", "<RoleInstanceList><RoleInstance/></RoleInstanceList>"):
         add({"op": "gs", "xml_b64": b64((gs_head + lst + "</Container></GoalState>").encode())}, kind="gs")
+    # xml_escape and its callers (telemetry events, provision state): multi-byte text mixed with markup
+    atoms = ["é", "日本", "𝄞", "ß", "&", "<", ">", "'", '"', "a", " ", "&amp;", "</html>", "\u00a0", "Ж"]
+    xml_texts = ["", "é&", "日本<b>", "&é", "𝄞'\"", "<html><body>Ошибка сервера &amp; 错误</body></html>", "plain ascii & <tag>"]
+    for _ in range(60 * scale):
+        xml_texts.append("".join(rng.choice(atoms) for _ in range(rng.randint(1, 30))))
+    for t in xml_texts:
+        add({"op": "xml", "text_b64": b64(t.encode())}, kind="xml", text=t)
+    for t in xml_texts[:40]:
+        add({"op": "tel", "msg_b64": b64(('{"userName":"%s","processCmdLine":"/bin/%s"}' % (t.replace('"', ""), t.replace('"', ""))).encode()),
+             "name_b64": b64(t.encode())}, kind="tel")
+    for n, t in enumerate(xml_texts[1:9]):
+        add({"op": "prov", "n": n, "msg_b64": b64(("Failed to get key status - Failed to json deserialize response body with json from: " + t * 3 + " with error expected value").encode())},
+            kind="prov")
     add({"op": "events"}, kind="events")
 
     # ================= implementation =================
@@ -536,6 +549,19 @@ def run(ctx):
                 known_or_fail({"op": "resp", "reply_b64": c["reply_b64"] if len(c["reply_b64"]) < 3000 else c["reply_b64"][:3000] + "...", "content_type": (m["ct"] or b"").decode("latin-1"),
                                "frame_lengths": [len(f) for f in m["frames"]]}, "S5", r["panics"],
                               "read_response_body panicked on a host reply", r["panics"])
+        elif k == "xml":
+            exp = m["text"].replace("&", "&amp;").replace("'", "&apos;").replace('"', "&quot;").replace("<", "&lt;").replace(">", "&gt;")
+            if r["panicked"]:
+                n_panics += 1
+                failures.append({"case": {"op": "xml", "text": m["text"]}, "why": "helpers::xml_escape panicked on %r" % m["text"][:60], "impl": r["panics"], "site": None, "panics": r["panics"]})
+            elif unb64(r["out_b64"]).decode() != exp:
+                disagreements.append({"case": {"op": "xml", "text": m["text"]}, "model": exp, "impl": unb64(r["out_b64"]).decode()})
+        elif k in ("tel", "prov"):
+            if r["panicked"] or r.get("set_panicked"):
+                n_panics += 1
+                failures.append({"case": {"op": k, "msg_b64": c["msg_b64"], "name_b64": c.get("name_b64")},
+                                 "why": ("building the telemetry XML of an event panicked" if k == "tel" else "provision_timeup / write_provision_state panicked with a non-ASCII key-keeper status message"),
+                                 "impl": r["panics"] + r.get("set_panics", []), "site": None, "panics": r["panics"] + r.get("set_panics", [])})
         elif k == "gs":
             if r["panicked"]:
                 n_panics += 1
@@ -615,6 +641,43 @@ def run(ctx):
                 failures.append({"case": {"op": "kk", "scenario": "hostile host reply"}, "site": None, "panics": [],
                                  "why": "the key-keeper task did not keep polling / publishing (polls %d)" % r["polls"], "impl": r})
     total += len(kk_cases)
+
+    # ================= absurd Content-Length values, one child process per case =================
+    # (a reply that announces far more than it sends; a process abort must be observed, not suffered)
+    ctx.log("announced-length leg")
+    absurd = [2 ** 31, 2 ** 32, 2 ** 46, 2 ** 63 - 1, 2 ** 63, 2 ** 64 - 3, 2 ** 64 - 1, 2 ** 64 + 5, 10 ** 30]
+    for i, n in enumerate(absurd):
+        for body, ct in ((b"", b"application/json"), (b'{"a":1}', b"application/json; charset=utf-16"), (b"<a/>", b"text/xml")):
+            if (i + len(body)) % 2 and ctx.quick:
+                continue
+            raw = b"HTTP/1.1 200 OK\r\nContent-Type: " + ct + b"\r\nContent-Length: %d\r\n\r\n" % n + body
+            child_cases = [{"id": 0, "op": "resp", "reply_b64": b64(raw), "pieces": [], "close": True, "kind": "xml" if b"xml" in ct else "json", "via": "get"}]
+            if n in (2 ** 46, 2 ** 63) and body == b"":
+                child_cases = [{"id": 0, "op": "kk", "n": 900 + i, "replies": [{"reply_b64": b64(raw), "pieces": [], "close": True}],
+                                "default_reply": {"reply_b64": b64(reply(b"application/json", b"not json")[0]), "pieces": []},
+                                "want_polls": 2, "max_ms": 20000, "interval_ms": 50}]
+            scr = os.path.join(ctx.scratch, "absurd%d_%d" % (i, len(body)))
+            os.makedirs(scr, exist_ok=True)
+            try:
+                p = subprocess.run([drv], input="\n".join(json.dumps(c) for c in child_cases) + "\n", capture_output=True, text=True, timeout=300,
+                                   env=dict(os.environ, C13_SCRATCH=scr, C13_NO_EVENT_LOOP="1"))
+                rc, out = p.returncode, p.stdout
+            except subprocess.TimeoutExpired:
+                rc, out = 124, ""
+            rs = [json.loads(l[6:]) for l in out.split("\n") if l.startswith("@@C13 ")]
+            total += 1
+            case = {"op": child_cases[0]["op"], "announced_content_length": str(n), "actual_body_len": len(body), "content_type": ct.decode()}
+            if rc != 0 or not rs:
+                failures.append({"case": case, "why": "the process running the agent code ended abnormally (exit %s%s) on a host reply announcing Content-Length %d" % (
+                    rc, ", killed by signal %d" % -rc if rc < 0 else "", n), "impl": p.stderr[-300:] if rc != 124 else "timeout", "site": None, "panics": []})
+                continue
+            r0 = rs[0]
+            if r0.get("panicked") or r0.get("task_panicked"):
+                n_panics += 1
+                failures.append({"case": case, "why": "a host reply announcing Content-Length %d panicked %s" % (n, "the key-keeper task" if r0["op"] == "kk" else "read_response_body"),
+                                 "impl": r0["panics"], "site": None, "panics": r0["panics"]})
+            elif r0["op"] == "kk" and r0["polls"] < 2:
+                failures.append({"case": case, "why": "the key-keeper task stopped polling after a reply announcing Content-Length %d" % n, "impl": r0, "site": None, "panics": []})
 
     # ================= the real listener (shared end-to-end runner) =================
     ctx.log("e2e leg")
@@ -825,6 +888,22 @@ def e2e_leg(ctx, form, MAXM, MAXE, disagreements, failures, dist, limit=102400):
                     conns = [e2e.conn([rq], audit=e2e.audit(dest, uid=0)) for rq in match_reqs]
                     scs.append(e2e.scenario("rules %s %s/%s dangling %s" % (endpoint, mode, default, dangling), conns, rules={endpoint: doc}))
                     metas.append({"kind": "rules"})
+        # the other request-target forms: authority-form (CONNECT), asterisk-form, absolute-form
+        forms = [b"CONNECT 168.63.129.16:80 HTTP/1.1\r\nHost: 168.63.129.16:80\r\n\r\n",
+                 b"CONNECT example.com:443 HTTP/1.1\r\nHost: example.com:443\r\n\r\n",
+                 b"OPTIONS * HTTP/1.1\r\nHost: x\r\n\r\n",
+                 b"GET http://168.63.129.16/machine?comp=goalstate HTTP/1.1\r\nHost: 168.63.129.16\r\n\r\n",
+                 b"PUT http://168.63.129.16/vmAgentLog HTTP/1.1\r\nHost: x\r\nContent-Length: 2\r\n\r\nhi",
+                 b"GET http://169.254.169.254:80 HTTP/1.1\r\nHost: x\r\n\r\n",
+                 b"DELETE /x HTTP/1.1\r\nHost: x\r\n\r\n", b"PATCH /x?y HTTP/1.0\r\n\r\n", b"HEAD /metadata/instance HTTP/1.1\r\nHost: x\r\n\r\n"]
+        for fi, raw in enumerate(forms):
+            for attributed in (False, True):
+                if raw.startswith(b"CONNECT") and attributed:
+                    continue      # a relayed CONNECT turns the connection into a tunnel: no second message to wait for
+                scs.append(e2e.scenario("target form %d %s" % (fi, "attributed" if attributed else "direct"),
+                                        [e2e.conn([e2e.req(raw, timeout_ms=4000)], audit=e2e.audit(e2e.WIRESERVER, uid=0) if attributed else None),
+                                         e2e.conn([get], audit=e2e.audit(e2e.IMDS, uid=0))]))
+                metas.append({"kind": "form"})
         big = e2e.http_request("GET", "/" + "u" * 65400, [])
         scs.append(e2e.scenario("64 KiB URL", [e2e.conn([big]), e2e.conn([get], audit=e2e.audit(e2e.IMDS, uid=0))], key=key))
         metas.append({"kind": "url"})
